@@ -6,15 +6,102 @@ package main
 import (
 	"encoding/json"
 	"fmt"
+	"go/ast"
+	"go/parser"
+	"go/token"
 	"math/big"
+	"reflect"
+	"runtime"
 	"strings"
 
 	"com.tuntun.rangers/node/src/common"
 	"com.tuntun.rangers/node/src/eth_tx"
+	"com.tuntun.rangers/node/src/executor"
 	"com.tuntun.rangers/node/src/middleware/types"
 	"com.tuntun.rangers/node/src/utility"
 	"verif/harness/hx"
 )
+
+// sourceConstants reads, from the very source file the harness was compiled against, the constants the
+// model transcribes: const prec / defaultDecimal / baseNumber and the literal arguments of the
+// big.ParseFloat call in strToBigInt (base, precision identifier, rounding mode). Anything that does not
+// have the expected shape is reported as -1 / "?" so that the model comparison fails visibly.
+func sourceConstants() (file string, prec, decimal int64, base string, pfBase int64, pfPrec string, pfMode string) {
+	prec, decimal, pfBase, base, pfPrec, pfMode = -1, -1, -1, "?", "?", "?"
+	f := runtime.FuncForPC(reflect.ValueOf(utility.BigIntToStr).Pointer())
+	if f == nil {
+		return
+	}
+	file, _ = f.FileLine(f.Entry())
+	fset := token.NewFileSet()
+	af, err := parser.ParseFile(fset, file, nil, 0)
+	if err != nil {
+		return
+	}
+	lit := func(e ast.Expr) string {
+		if b, ok := e.(*ast.BasicLit); ok {
+			return b.Value
+		}
+		return "?"
+	}
+	toInt := func(v string) int64 {
+		n, ok := new(big.Int).SetString(v, 0)
+		if !ok || !n.IsInt64() {
+			return -1
+		}
+		return n.Int64()
+	}
+	for _, d := range af.Decls {
+		switch d := d.(type) {
+		case *ast.GenDecl:
+			if d.Tok != token.CONST {
+				continue
+			}
+			for _, sp := range d.Specs {
+				vs := sp.(*ast.ValueSpec)
+				for i, nm := range vs.Names {
+					if i >= len(vs.Values) {
+						continue
+					}
+					switch nm.Name {
+					case "prec":
+						prec = toInt(lit(vs.Values[i]))
+					case "defaultDecimal":
+						decimal = toInt(lit(vs.Values[i]))
+					case "baseNumber":
+						base = lit(vs.Values[i])
+					}
+				}
+			}
+		case *ast.FuncDecl:
+			if d.Name.Name != "strToBigInt" || d.Body == nil {
+				continue
+			}
+			ast.Inspect(d.Body, func(n ast.Node) bool {
+				c, ok := n.(*ast.CallExpr)
+				if !ok {
+					return true
+				}
+				sel, ok := c.Fun.(*ast.SelectorExpr)
+				if !ok || sel.Sel.Name != "ParseFloat" || len(c.Args) != 4 {
+					return true
+				}
+				pfBase = toInt(lit(c.Args[1]))
+				switch a := c.Args[2].(type) {
+				case *ast.Ident:
+					pfPrec = a.Name
+				case *ast.BasicLit:
+					pfPrec = a.Value
+				}
+				if m, ok := c.Args[3].(*ast.SelectorExpr); ok {
+					pfMode = m.Sel.Name
+				}
+				return true
+			})
+		}
+	}
+	return
+}
 
 func errClass(err error) int {
 	switch {
@@ -247,6 +334,51 @@ func main() {
 		}
 	}
 
+	// ---- (0) the constants of the source the harness was compiled against vs the model's ----
+	{
+		file, prec, decimal, base, pfBase, pfPrec, pfMode := sourceConstants()
+		effPrec := int64(-1)
+		if pfPrec == "prec" {
+			effPrec = prec
+		} else if n, ok := new(big.Int).SetString(pfPrec, 0); ok && n.IsInt64() {
+			effPrec = n.Int64()
+		}
+		modeCode := map[string]int{"ToNearestEven": 0, "ToNearestAway": 1, "ToZero": 2, "AwayFromZero": 3, "ToNegativeInf": 4, "ToPositiveInf": 5}
+		mc, ok := modeCode[pfMode]
+		if !ok {
+			mc = -1
+		}
+		baseN, ok := new(big.Int).SetString(base, 0)
+		if !ok {
+			baseN = big.NewInt(-1)
+		}
+		cs.Add(fmt.Sprintf("CConst %s %s %s %s %s", hx.CoqZ(fmt.Sprint(effPrec)), hx.CoqZ(fmt.Sprint(mc)), hx.CoqZ(fmt.Sprint(pfBase)), hx.CoqZ(fmt.Sprint(decimal)), hx.CoqZ(baseN.String())),
+			map[string]interface{}{"fn": "source constants", "file": file, "prec": prec, "ParseFloat.base": pfBase, "ParseFloat.prec": pfPrec, "ParseFloat.mode": pfMode, "defaultDecimal": decimal, "baseNumber": base})
+		res.Note(fmt.Sprintf("source constants read from %s: ParseFloat(s, %d, %s=%d, big.%s), defaultDecimal=%d, baseNumber=%s (compared with the model's code_prec/code_mode/default_decimal)", file, pfBase, pfPrec, effPrec, pfMode, decimal, base))
+		res.Count("source-constants", "K", false)
+	}
+	// nil arguments: the functions document "0" / 0
+	func() {
+		defer func() {
+			if p := recover(); p != nil {
+				res.Violate("C18/panic:nil-argument", fmt.Sprint(p), "nil")
+			}
+		}()
+		if s := utility.BigIntToStr(nil); s != "0" {
+			res.Violate("C18/nil-argument:BigIntToStr", "BigIntToStr(nil) = "+s, "nil")
+		}
+		if s := utility.VerifBigIntToStr(nil, 5); s != "0" {
+			res.Violate("C18/nil-argument:bigIntToStr", "bigIntToStr(nil,5) = "+s, "nil")
+		}
+		if r := utility.FormatDecimalForERC20(nil, 6); r == nil || r.Sign() != 0 {
+			res.Violate("C18/nil-argument:FormatDecimalForERC20", fmt.Sprint(r), "nil")
+		}
+		if r := utility.FormatDecimalForRocket(nil, 6); r == nil || r.Sign() != 0 {
+			res.Violate("C18/nil-argument:FormatDecimalForRocket", fmt.Sprint(r), "nil")
+		}
+		res.Count("nil-argument", "NIL", false)
+	}()
+
 	// ---- (1) boundary corpus ----
 	mk := func(s string) *big.Int { n, _ := new(big.Int).SetString(s, 10); return n }
 	p2 := func(k uint, d int64) *big.Int {
@@ -364,30 +496,52 @@ func main() {
 	}
 
 	// ---- (5) wrapped Ethereum transaction: value reaches the executor unchanged ----
-	for i := 0; i < a.N/10+5; i++ {
-		v := new(big.Int).SetBytes(rng.Bytes(rng.Intn(33)))
-		if i < 4 {
-			v = []*big.Int{big.NewInt(0), big.NewInt(1), p2(256, -1), mk(witnessNearest)}[i]
-		}
-		func() {
-			defer func() {
-				if p := recover(); p != nil {
-					res.Violate("C18/wrapped-tx-value:panic", fmt.Sprint(p), v.String())
-				}
-			}()
-			tx := eth_tx.NewTransaction(uint64(rng.Intn(1000)), common.BytesToAddress(rng.Bytes(20)), v, 21000+uint64(rng.Intn(100000)), big.NewInt(int64(rng.Intn(1e9))), rng.Bytes(rng.Intn(40)))
-			conv := eth_tx.ConvertTx(tx, common.BytesToAddress(rng.Bytes(20)), nil)
-			var data types.ContractData
-			if err := json.Unmarshal([]byte(conv.Data), &data); err != nil {
-				res.Violate("C18/wrapped-tx-value:json", err.Error(), v.String())
-				return
+	// eth_tx.ConvertTx writes BigIntToStr(value) into the JSON data; the contract executor's
+	// decodeContractData (hook VerifDecodeContractData) parses it back with StrToBigInt.
+	common.SetBlockHeight(1) // the executor's decoding reads fork gates (process-global height; zero config = all proposals active)
+	wrapped := func(v *big.Int) {
+		defer func() {
+			if p := recover(); p != nil {
+				res.Violate("C18/wrapped-tx-value:panic", fmt.Sprint(p), v.String())
 			}
-			got, err := utility.StrToBigInt(data.TransferValue)
-			if err != nil || got.Cmp(v) != 0 {
-				res.Violate("C18/wrapped-tx-value", fmt.Sprintf("value %v arrives as %v (%v) via %q", v, got, err, data.TransferValue), v.String())
-			}
-			res.Count("wrapped-tx", "W|"+v.String(), v.Sign() != 0)
 		}()
+		payload := rng.Bytes(rng.Intn(40))
+		gas := 21000 + uint64(rng.Intn(100000))
+		tx := eth_tx.NewTransaction(uint64(rng.Intn(1000)), common.BytesToAddress(rng.Bytes(20)), v, gas, big.NewInt(int64(rng.Intn(1e9))), payload)
+		conv := eth_tx.ConvertTx(tx, common.BytesToAddress(rng.Bytes(20)), nil)
+		var data types.ContractData
+		if err := json.Unmarshal([]byte(conv.Data), &data); err != nil {
+			res.Violate("C18/wrapped-tx-value:json", err.Error(), v.String())
+			return
+		}
+		gotGas, got, input, msg := executor.VerifDecodeContractData(conv.Data)
+		if msg != "" || got == nil || got.Cmp(v) != 0 {
+			res.Violate("C18/wrapped-tx-value", fmt.Sprintf("value %v arrives at the executor as %v (%q) via %q", v, got, msg, data.TransferValue), v.String())
+		}
+		if msg == "" && (gotGas != gas || string(input) != string(payload)) {
+			res.Violate("C18/wrapped-tx-value:other-fields", fmt.Sprintf("gas %d -> %d, input %x -> %x", gas, gotGas, payload, input), v.String())
+		}
+		// the string is the model's bigint_to_str of the value
+		cs.Add(fmt.Sprintf("CBStr %s %s", coqBig(v), hx.CoqHex([]byte(data.TransferValue))), map[string]interface{}{"fn": "ConvertTx.TransferValue", "n": v.String(), "obs": data.TransferValue})
+		res.Count("wrapped-tx", "W|"+v.String(), v.Sign() != 0)
+	}
+	for _, v := range []*big.Int{big.NewInt(0), big.NewInt(1), p2(256, -1), p2(255, 0), pow10(18), pow10(77), mk(witnessNearest), mk(witnessPrec64), mk(witnessPrec256)} {
+		wrapped(v)
+	}
+	for i := 0; i < a.N/10; i++ {
+		var v *big.Int
+		switch rng.Intn(4) {
+		case 0:
+			v = new(big.Int).SetBytes(rng.Bytes(32))
+		case 1:
+			v = new(big.Int).Abs(randInt(rng))
+			if v.Cmp(two256) >= 0 {
+				v.Rsh(v, uint(v.BitLen()-256))
+			}
+		default:
+			v = new(big.Int).SetBytes(rng.Bytes(rng.Intn(33)))
+		}
+		wrapped(v)
 	}
 
 	res.Note(fmt.Sprintf("mutation probe on the implementation side: of %d non-zero in-range integers generated, %d would not round-trip with ToNearestEven at 512 bits and %d would not with AwayFromZero at 64 bits", altProbes, altNearest, altPrec64))
